@@ -123,6 +123,14 @@ def h_gls(cx, models, xs, ylay, priors=None, method=None, key_order=None, correl
             prows.append((pos, ps, pri_err[pos]))
     allspecs = Y + [p[1] for p in prows if not (isinstance(pri_specs[p[0]], tuple))]
 
+    def _neq(tot, resid, label, j):
+        if cx.mode == 'sym':
+            cx.prove_eq(tot, 0, '%s: normal equation[%d]' % (label, j))
+        else:
+            # replay: the real minimiser converges to ~1e-5 (MINUIT / Nelder-Mead); a defect is O(1)
+            scale = sum(abs(float(r)) for r in resid) * max(1.0, max(1 / float(d * d) for d in dY)) + 1e-300
+            cx.prove(abs(float(tot)) <= 5e-3 * scale, '%s: normal equation[%d]' % (label, j))
+
     def normal_eq(getP, getY, getPr, label):
         """sum_i A_ij w_i (sum_l A_il P_l - Y_i) + prior rows = 0 for every parameter j"""
         if L is None:
@@ -132,7 +140,7 @@ def h_gls(cx, models, xs, ylay, priors=None, method=None, key_order=None, correl
                 for (pos, ps, perr), k in zip(prows, range(len(prows))):
                     if pos == j:
                         tot = tot + (getP(pos) - getPr(k)) / (perr * perr)
-                cx.prove_eq(tot, 0, '%s: normal equation[%d]' % (label, j))
+                _neq(tot, resid, label, j)
         else:
             resid = [(sum(A[i][l] * getP(l) for l in range(n_parms)) - getY(i)) for i in range(npts)]
             Lr = [sum(L[a, i] * resid[i] for i in range(a + 1)) for a in range(npts)]
@@ -176,7 +184,8 @@ def h_gls(cx, models, xs, ylay, priors=None, method=None, key_order=None, correl
         if not cx.expect(len(solves) == 1, 'exactly one linear solve', str(len(solves))):
             return
         H, M, X = solves[0]
-        cx.expect(H.shape == (n_parms, n_parms) and M.shape == (n_parms, npts + len(prows)), 'shapes of H and M', '%s %s' % (H.shape, M.shape))
+        if not cx.expect(H.shape == (n_parms, n_parms) and M.shape == (n_parms, npts + len(prows)), 'shapes of H and M', '%s %s' % (H.shape, M.shape)):
+            return
         if L is None:
             Wm = [[(1 / (dY[i] * dY[i]) if i == k else 0) for k in range(npts)] for i in range(npts)]
         else:
